@@ -160,6 +160,13 @@ def do_case(item):
             o = r1.get("o")
             if o not in (None, "-", "2a30", "2a31", ".") and not is_gs:
                 viol("output-not-token", "output field holds %s" % o)
+        if "crypt_ra" in call and not success and any(k == "R" for k, _, _ in failed):
+            had_block = any(l.startswith("raobj") and int(l.split()[2]) >= 0 for l in setup0)
+            if had_block and r1.get("d") != "1":
+                viol("caller-block-lost", "realloc failed and *data is no longer the caller's block (d=%s): the old block "
+                                          "can no longer be freed by the caller" % r1.get("d"))
+            if had_block and r1.get("blk") not in (None, "-1") and int(r1.get("sz", "0")) > int(r1.get("blk", "0")):
+                viol("size-exceeds-block", "after the failed realloc *size=%s but the block has %s bytes" % (r1.get("sz"), r1.get("blk")))
         if r1.get("iz") == "0" or r1.get("rz") == "0":
             viol("scratch-not-erased", "internal/reserved not zero after the faulted call")
         if int(r1.get("lerr", "0")) or int(r2.get("lerr", "0")):
